@@ -66,6 +66,18 @@ CLAIMED.update({
         design="6/C06"),
 })
 
+CLAIMED.update({
+    "C17": dict(
+        technique="Lean 4 proof (semantic abstraction of the nested setdefault merge; induction over lines; permutation corollary) + field-by-field correspondence with Config() + union/permutation/option-scope monitors on the real objects",
+        text=("C17_union (tuples of a loaded line list = union of the single-line tuples), C17_perm (order independence), C17_line_ext "
+              "(slash / deb-<arch> vs [arch=] spellings only matter through the parsed fields), C17_findKey_scope (an option selects "
+              "exactly the repository whose key is its URL without trailing slashes), C17_getBool_table are proved for all line lists; "
+              "the character-level model of from_line and the merge are compared with the real Config on random configurations, and "
+              "union / all permutations / option scoping are re-checked on the real objects."),
+        note="Models the code after fixes d7a84c6 and 3fed5fe; the original aliasing is refuted by C17_legacy_alias_counterexample. $variable substitution is compared, not proved. Trusted: Lean kernel, model, harness.",
+        design="6/C17"),
+})
+
 NOT_YET = {}
 
 
